@@ -19,10 +19,20 @@ BuildFirst == \A i \in DOMAIN hist : /\ (i <= NAssets) = (hist[i].act.op = "AddA
                                       /\ hist[i].act.op \in {"AddAsset", "AddAssociation", "SetDefense"}
                                       /\ (hist[i].act.op = "AddAsset" => hist[i].act.allowDup)
 EmitOK == IF EnvOr("VERIF_BUILDFIRST", "0") = "1" THEN BuildFirst ELSE TRUE
-Emit == ((TLCGet("level") = Depth + 1 \/ Ended) /\ FewRej /\ EmitOK) => PrintT(ToJson([lang |-> EnvOr("VERIF_LANG", "LTiny"), hist |-> hist, abs |-> AbsLegacy, neo |-> [nodes |-> NeoNodes, rels |-> NeoRels]]))
+\* with VERIF_GRAPH=1 the attack graph the specification assigns to the FINAL model of the behaviour is emitted as well
+WithGraph == EnvOr("VERIF_GRAPH", "0") = "1"
+FinalOrder == [k \in DOMAIN vAssets |-> vAssets[k].h]
+Emit == ((TLCGet("level") = Depth + 1 \/ Ended) /\ FewRej /\ EmitOK) =>
+          PrintT(ToJson([lang |-> EnvOr("VERIF_LANG", "LTiny"), hist |-> hist, abs |-> AbsLegacy, neo |-> [nodes |-> NeoNodes, rels |-> NeoRels],
+                         final |-> vAssets,
+                         exp |-> IF WithGraph /\ ~Ended THEN GraphExp(Lng, ModelVal, FinalOrder) ELSE [nodes |-> <<>>, lo |-> {}, hi |-> {}, feats |-> {}]]))
 StopAtEnd == ~Ended
 \* one representative history per distinct model state (for the checks that only need the states: C07, C18, C19)
 GVw == <<vAssets, vAssocs, vAtk>>
-EmitState == (hist # <<>> /\ ~Ended /\ FewRej /\ TLCGet("level") <= Depth) => PrintT(ToJson([lang |-> EnvOr("VERIF_LANG", "LTiny"), hist |-> hist, abs |-> AbsLegacy, neo |-> [nodes |-> NeoNodes, rels |-> NeoRels]]))
+EmitState == (hist # <<>> /\ ~Ended /\ FewRej /\ TLCGet("level") <= Depth) =>
+               PrintT(ToJson([lang |-> EnvOr("VERIF_LANG", "LTiny"), hist |-> hist, abs |-> AbsLegacy, neo |-> [nodes |-> NeoNodes, rels |-> NeoRels],
+                              final |-> vAssets,
+                              exp |-> IF EnvOr("VERIF_GRAPH", "0") = "1" THEN GraphExp(Lng, ModelVal, [k \in DOMAIN vAssets |-> vAssets[k].h])
+                                      ELSE [nodes |-> <<>>, lo |-> {}, hi |-> {}, feats |-> {}]]))
 FewRejections == FewRej
 =============================================================================
